@@ -555,7 +555,11 @@ func (s *UtxoStore) deleteUnminedInputs(tx mwdb.DBTransaction, rec *TxRecord) er
 	for _, input := range rec.MsgTx.TxIn {
 		prevOut := &input.PreviousOutPoint
 		k := canonicalOutPoint(&prevOut.Hash, prevOut.Index)
-		if len(existsRawUnminedInput(nsUnminedInputs, k)) > 0 {
+		spender, err := existsRawUnminedInput(nsUnminedInputs, k)
+		if err != nil {
+			return err
+		}
+		if len(spender) > 0 {
 			if err := deleteRawUnminedInput(nsUnminedInputs, k); err != nil {
 				return err
 			}
@@ -851,7 +855,11 @@ func (s *UtxoStore) ScriptAddressUnspents(tx mwdb.ReadTransaction, scriptAddrs m
 		if !ok {
 			continue
 		}
-		cred.flags.SpentByUnmined = existsRawUnminedInput(nsUnminedInputs, canonicalOutPoint(&op.Hash, op.Index)) != nil
+		spender, err := existsRawUnminedInput(nsUnminedInputs, canonicalOutPoint(&op.Hash, op.Index))
+		if err != nil {
+			return nil, err
+		}
+		cred.flags.SpentByUnmined = spender != nil
 
 		item := &Credit{
 			OutPoint:      op,
@@ -1009,7 +1017,11 @@ func (s *UtxoStore) GetStakingHistoryDetail(tx mwdb.ReadTransaction, addrMgr *ke
 		}
 		if !det.Utxo.Spent {
 			k := canonicalOutPoint(&det.TxHash, det.Index)
-			det.Utxo.SpentByUnmined = existsRawUnminedInput(nsUnminedInputs, k) != nil
+			spender, err := existsRawUnminedInput(nsUnminedInputs, k)
+			if err != nil {
+				return nil, err
+			}
+			det.Utxo.SpentByUnmined = spender != nil
 		}
 		ret = append(ret, det)
 	}
@@ -1200,7 +1212,11 @@ func (s *UtxoStore) GetBindingHistoryDetail(tx mwdb.ReadTransaction, addrMgr *ke
 		}
 		if !det.Utxo.Spent {
 			k := canonicalOutPoint(&det.TxHash, det.Index)
-			det.Utxo.SpentByUnmined = existsRawUnminedInput(nsUnminedInputs, k) != nil
+			spender, err := existsRawUnminedInput(nsUnminedInputs, k)
+			if err != nil {
+				return nil, err
+			}
+			det.Utxo.SpentByUnmined = spender != nil
 		}
 		ret = append(ret, det)
 	}
